@@ -709,6 +709,10 @@ fn err_name(e: &EncodingError) -> String {
 }
 
 fn encode_one(f: &Fm, img: &Img, chs: Channels, ch: &[usize], p: Prec, pad: usize, off: usize, par: bool) -> Option<Result<Vec<u8>, String>> {
+    encode_one_d(f, img, chs, ch, p, pad, off, par, Dithering::None)
+}
+
+fn encode_one_d(f: &Fm, img: &Img, chs: Channels, ch: &[usize], p: Prec, pad: usize, off: usize, par: bool, dith: Dithering) -> Option<Result<Vec<u8>, String>> {
     let (buf, off, pitch) = build(img, ch, p, pad, off)?;
     let color = ColorFormat::new(chs, precision(p));
     let size = Size::new(img.w as u32, img.h as u32);
@@ -720,7 +724,7 @@ fn encode_one(f: &Fm, img: &Img, chs: Channels, ch: &[usize], p: Prec, pad: usiz
     };
     let mut out = Vec::new();
     let mut opt = EncodeOptions::default();
-    opt.dithering = Dithering::None;
+    opt.dithering = dith;
     opt.parallel = par;
     Some(match encode(&mut out, view, f.fmt, None, &opt) {
         Ok(()) => Ok(out),
@@ -1239,6 +1243,25 @@ fn run_image(f: &Fm, fam: Fam, img: &Img, precs: &[Prec], p_logical: Prec, int_l
                 return (format!("ok {} -", bytes.len()), o.msgs);
             }
             run_oracle(&mut o, f, img, p_logical, &bytes, int_line);
+            // the exactness clause carries no "without dithering" qualifier: where the format can hold the input,
+            // the round trip is the identity whatever dithering is requested
+            if f.exact_for(p_logical) && precs.contains(&p_logical) {
+                if let Some((chs, ch)) = carriers(fam).into_iter().next() {
+                    for (dn, d) in [("color", Dithering::Color), ("alpha", Dithering::Alpha), ("both", Dithering::ColorAndAlpha)] {
+                        if let Some(Ok(db)) = encode_one_d(f, img, chs, ch, p_logical, 0, 0, dn == "both", d) {
+                            let mut o2 = Oracle { msgs: vec![] };
+                            if db.len() != bytes.len() {
+                                o2.say(format!("length {} vs {}", db.len(), bytes.len()));
+                            } else {
+                                run_oracle(&mut o2, f, img, p_logical, &db, int_line);
+                            }
+                            for m in o2.msgs {
+                                o.say(format!("dithering={dn}: {m}"));
+                            }
+                        }
+                    }
+                }
+            }
             let mask = loose_mask(f, img, int_line);
             let mut hb = bytes.clone();
             for (b, m) in hb.iter_mut().zip(mask.iter()) {
@@ -1449,7 +1472,9 @@ pub fn gen(seed: u64, thorough: bool) -> Vec<String> {
         // ---- 8-bit pairs (channel interaction: shared exponent, YUV matrix): 65536 pixels
         if f.k[0] == E9 || f.is_yuv() {
             let (w, h) = if matches!(f.cls, Bi(_)) { (512, 2) } else { (1024, 1) };
-            let step = if thorough { 1 } else { 4 };
+            // shared exponent: all 65536 (r,g) pairs also in the quick tier (the borderline mantissas sit at single
+            // pairs such as (255,127))
+            let step = if thorough || f.k[0] == E9 { 1 } else { 4 };
             for s in (0..64).step_by(step) {
                 out.push(format!("int {} 8 rgb 2 {} {} {}", f.name, w, h, s * 1024));
                 if blocky {
